@@ -4,8 +4,8 @@ A distinguishable exception is injected at EVERY invocation index of the model, 
 sample_batch in runs of a few batches, for the round-robin scheduler (with and without a saving folder) and for the RL
 scheduler (real Calibrator.calibrate on the calibration thread + agent thread under the controlled-thread explorer, every
 schedule with <= 1 preemption). Oracle: calibrate() raises THAT exception; the history equals the fault-free twin's prefix of
-completed batches (bitwise) and is aligned; no thread started by the calibration is left; the next calibrate(1) works and
-appends exactly one aligned batch.
+completed batches (bitwise) and is aligned; no thread started by the calibration is left; the next calibrate(1) (RL: calibrate(2),
+so that the agent must have been answered for the retried batch) works and appends exactly that many aligned batches.
 """
 from __future__ import annotations
 
@@ -80,21 +80,23 @@ def judge(cal, caught, expected_exc, twin, thread_delta, leaked, folder=None, cf
     return v
 
 
-def judge_next(cal, exc2, rows_before, nb_before):
+def judge_next(cal, exc2, rows_before, nb_before, follow=1):
     if exc2 is not None:
-        return [("scheduler-unusable", f"the next calibrate(1) raised {type(exc2).__name__}: {exc2}")]
+        return [("scheduler-unusable", f"the next calibrate({follow}) raised {type(exc2).__name__}: {exc2}")]
     h = C.history(cal)
     lens = {k: len(a) for k, a in h.items()}
-    if len(set(lens.values())) != 1 or cal.current_batch_index != nb_before + 1 or lens["params_samp"] <= rows_before:
-        return [("next-batch-misaligned", f"after the next calibrate(1): lengths {lens}, batch index {cal.current_batch_index} (was {nb_before})")]
-    if not np.array_equal(h["batch_num_samp"][rows_before:], np.full(lens["params_samp"] - rows_before, nb_before)):
-        return [("next-batch-misaligned", f"batch labels of the new rows: {h['batch_num_samp'][rows_before:].tolist()}, expected {nb_before}")]
+    if len(set(lens.values())) != 1 or cal.current_batch_index != nb_before + follow or lens["params_samp"] <= rows_before:
+        return [("next-batch-misaligned", f"after the next calibrate({follow}): lengths {lens}, batch index {cal.current_batch_index} (was {nb_before})")]
+    new = np.asarray(h["batch_num_samp"][rows_before:])
+    if sorted(set(new.tolist())) != list(range(nb_before, nb_before + follow)) or np.any(np.diff(new) < 0):
+        return [("next-batch-misaligned", f"batch labels of the new rows: {new.tolist()}, expected {list(range(nb_before, nb_before + follow))} in order")]
     return []
 
 
 def run_fault(cfg, source, k, n, twin, prefix=None, folder=False, sleep_at=None):
     """One fault position (and, for RL, one schedule). Returns (violations, controller or None, fired)."""
     rl = "scheduler" in cfg
+    follow = 2 if rl else 1   # RL: the batch after the retried one needs the agent's answer to the retried one (wave 6, C11-k)
     source, _, flavour = source.partition(":")   # "loss:stop" = the loss raises a StopIteration, "sampler:exit" = a SystemExit, ...
     flavour = flavour or None
     models.reset(fault_at=k if source in ("model", "interrupt") else None, interrupt=flavour if (source == "model" and flavour in ("stop", "value", "lookup", "os")) else source == "interrupt")
@@ -125,7 +127,7 @@ def run_fault(cfg, source, k, n, twin, prefix=None, folder=False, sleep_at=None)
             rec2 = C.Recorder()
             try:
                 with rec2, quiet():
-                    cal.calibrate(1)
+                    cal.calibrate(follow)
                 out["exc2"] = None
             except Exception as e:  # noqa: BLE001
                 out["exc2"] = e
@@ -151,7 +153,7 @@ def run_fault(cfg, source, k, n, twin, prefix=None, folder=False, sleep_at=None)
     if leaked:
         v.append(("thread-left-running", f"controlled threads alive at the end: {leaked}"))
     if not v:
-        v += judge_next(out["cal"], out["exc2"], out["rows"], out["nb"])
+        v += judge_next(out["cal"], out["exc2"], out["rows"], out["nb"], follow)
     if not v and not rl and out.get("next_sampler") is not None and out["next_sampler"] != out["nb"] % len(cfg["lineup"]):
         v.append(("retry-by-wrong-sampler", f"after the failed batch {out['nb']} the next calibrate(1) used sampler #{out['next_sampler']}; round-robin prescribes #{out['nb'] % len(cfg['lineup'])} for batch {out['nb']}"))
     return v, ctl, True
